@@ -99,6 +99,7 @@ type State struct {
 	parent *State
 	via    string
 	key    string
+	inner  *ast.ReturnStmt // innermost return of an inlined tail call (not part of the identity)
 }
 
 // Get returns the value of a fact.
@@ -128,7 +129,7 @@ func (s *State) Facts() []string {
 }
 
 func (s *State) clone(via string) *State {
-	n := &State{facts: make(map[string]Val, len(s.facts)+2), defers: s.defers, parent: s, via: via}
+	n := &State{facts: make(map[string]Val, len(s.facts)+2), defers: s.defers, parent: s, via: via, inner: s.inner}
 	for k, v := range s.facts {
 		n.facts[k] = v
 	}
@@ -192,6 +193,19 @@ type Exit struct {
 	Return *ast.ReturnStmt // nil for fall-off-the-end and panic exits
 	At     ast.Node        // the node that ended the function (return stmt / panicking call)
 	State  *State
+	// Inner is the innermost return statement of an inlined callee when the function returned
+	// `return h(..)` with h interpreted in place (nil otherwise): the expressions that produced
+	// the returned values on this path.
+	Inner *ast.ReturnStmt
+}
+
+// Ret returns the return statement whose expressions produced the returned values: Inner if the
+// function returned an inlined call, Return otherwise.
+func (x *Exit) Ret() *ast.ReturnStmt {
+	if x.Inner != nil {
+		return x.Inner
+	}
+	return x.Return
 }
 
 // Config configures one analysis.
@@ -219,6 +233,9 @@ type Config struct {
 	NoHavoc bool
 	// MaxStates bounds the number of (block,state) pairs (default 400000).
 	MaxStates int
+	// Inline, when set, is asked for the body of a statically resolved callee; a non-nil answer
+	// (a Func of the same package) makes the engine interpret the call in place (see inline.go).
+	Inline func(call *ast.CallExpr, callee *types.Func) *Func
 }
 
 // Result of an analysis.
@@ -231,6 +248,8 @@ type Result struct {
 	// Blocks / States are counters for evidence.
 	Blocks int
 	States int
+	// Inlined names the functions whose bodies were interpreted in place.
+	Inlined []string
 }
 
 type condInfo struct {
@@ -247,6 +266,10 @@ type Engine struct {
 	cfgs map[*ast.BlockStmt]*cfg.CFG
 	res  *Result
 	err  error
+
+	inlineStack []*types.Func
+	indexed     map[*ast.BlockStmt]bool
+	skipCall    map[*ast.CallExpr]bool
 }
 
 type factDeps struct {
@@ -260,12 +283,12 @@ func Analyze(fn *Func, c Config) (*Result, error) {
 		c.MaxStates = 400000
 	}
 	e := &Engine{Fn: fn, cfg: c, deps: map[string]*factDeps{}, cond: map[ast.Expr]condInfo{},
-		cfgs: map[*ast.BlockStmt]*cfg.CFG{}}
+		cfgs: map[*ast.BlockStmt]*cfg.CFG{}, indexed: map[*ast.BlockStmt]bool{}, skipCall: map[*ast.CallExpr]bool{}}
 	e.res = &Result{Fn: fn, At: map[ast.Node][]*State{}}
 	e.indexConds(fn.Body)
 	init := &State{facts: map[string]Val{}}
 	e.run(fn.Body, []*State{init}, func(st *State, kind ExitKind, ret *ast.ReturnStmt, at ast.Node) {
-		e.res.Exits = append(e.res.Exits, &Exit{Kind: kind, Return: ret, At: at, State: st})
+		e.res.Exits = append(e.res.Exits, &Exit{Kind: kind, Return: ret, At: at, State: st, Inner: st.inner})
 	})
 	if e.err != nil {
 		return nil, e.err
@@ -552,6 +575,14 @@ func (e *Engine) exec(st *State, n ast.Node, exit exitFn) []*State {
 		e.evalCalls(st, s.X, exit)
 		e.killExpr(st, s.X)
 	case *ast.ExprStmt:
+		if call, fn, callee := e.inlTarget(s.X); fn != nil {
+			var out []*State
+			for _, o := range e.inline(st, call, fn, callee, exit) {
+				o.st.inner = nil
+				out = append(out, o.st)
+			}
+			return out
+		}
 		e.evalCalls(st, s.X, exit)
 	case *ast.DeferStmt:
 		for _, a := range s.Call.Args {
@@ -572,6 +603,27 @@ func (e *Engine) exec(st *State, n ast.Node, exit exitFn) []*State {
 		e.evalCalls(st, s.Call.Fun, exit)
 		e.callEvent(st, s.Call, false, exit)
 	case *ast.ReturnStmt:
+		if len(s.Results) == 1 {
+			if call, fn, callee := e.inlTarget(s.Results[0]); fn != nil {
+				var out []*State
+				for _, o := range e.inline(st, call, fn, callee, exit) {
+					states := []*State{o.st}
+					if len(o.results) == 1 {
+						// the returned value is the callee's: attach what is known about it to the call expression
+						e.skipCall[call] = true
+						states = e.assignOne(o.st, call, ast.Unparen(o.results[0]), exit)
+						delete(e.skipCall, call)
+					}
+					for _, t := range states {
+						if t.inner == nil {
+							t.inner = o.ret
+						}
+						out = append(out, t)
+					}
+				}
+				return out
+			}
+		}
 		for _, r := range s.Results {
 			e.evalCalls(st, r, exit)
 		}
@@ -612,6 +664,35 @@ func (e *Engine) learnZero(st *State, l ast.Expr) {
 }
 
 func (e *Engine) assign(st *State, lhs, rhs []ast.Expr, tok token.Token, exit exitFn) []*State {
+	if len(rhs) == 1 && (tok == token.ASSIGN || tok == token.DEFINE) {
+		if call, fn, callee := e.inlTarget(rhs[0]); fn != nil {
+			for _, l := range lhs {
+				if _, isIdent := l.(*ast.Ident); !isIdent {
+					e.evalCalls(st, l, exit)
+				}
+			}
+			var out []*State
+			for _, o := range e.inline(st, call, fn, callee, exit) {
+				o.st.inner = nil
+				states := []*State{o.st}
+				if len(o.results) == len(lhs) {
+					for i := range lhs {
+						var next []*State
+						for _, s := range states {
+							next = append(next, e.assignOne(s, lhs[i], ast.Unparen(o.results[i]), exit)...)
+						}
+						states = next
+					}
+				} else {
+					for _, l := range lhs {
+						e.killExpr(o.st, l)
+					}
+				}
+				out = append(out, states...)
+			}
+			return out
+		}
+	}
 	for _, r := range rhs {
 		e.evalCalls(st, r, exit)
 	}
@@ -659,6 +740,17 @@ func (e *Engine) assignOne(st *State, l, r ast.Expr, exit exitFn) []*State {
 	f := e.Fn
 	// evaluate what the RHS is in the current state *before* killing (x = !x etc.)
 	tv := f.Info.Types[r]
+	if tv.Type == nil {
+		if id, ok := r.(*ast.Ident); ok { // a defining identifier (named result of an inlined callee)
+			if o := f.objOf(id); o != nil {
+				tv.Type = o.Type()
+			}
+		}
+	}
+	varKey := f.VarKey
+	if _, isCall := l.(*ast.CallExpr); isCall {
+		varKey = f.CallKey // the value of `return h(..)` is known under the call's own key
+	}
 	isBool := false
 	if tv.Type != nil {
 		if b, ok := tv.Type.Underlying().(*types.Basic); ok && b.Info()&types.IsBoolean != 0 {
@@ -688,13 +780,13 @@ func (e *Engine) assignOne(st *State, l, r ast.Expr, exit exitFn) []*State {
 		for _, t := range ts {
 			t = t.clone("")
 			e.killExpr(t, l)
-			e.learn(t, f.VarKey(l), True, l)
+			e.learn(t, varKey(l), True, l)
 			out = append(out, t)
 		}
 		for _, t := range fs {
 			t = t.clone("")
 			e.killExpr(t, l)
-			e.learn(t, f.VarKey(l), False, l)
+			e.learn(t, varKey(l), False, l)
 			out = append(out, t)
 		}
 		return out
@@ -718,7 +810,7 @@ func (e *Engine) assignOne(st *State, l, r ast.Expr, exit exitFn) []*State {
 	switch {
 	case tv.Value != nil:
 		if isBool {
-			e.learn(st, f.VarKey(l), boolVal(tv.Value.ExactString() == "true"), l)
+			e.learn(st, varKey(l), boolVal(tv.Value.ExactString() == "true"), l)
 		} else {
 			e.learn(st, "eq:"+lr+"=="+tv.Value.ExactString(), True, l)
 		}
@@ -897,6 +989,9 @@ func (e *Engine) evalCalls(st *State, x ast.Expr, exit exitFn) {
 		if _, isLit := ast.Unparen(t.Fun).(*ast.FuncLit); !isLit {
 			e.evalCalls(st, t.Fun, exit)
 		}
+		if e.skipCall[t] {
+			return // already interpreted in place
+		}
 		for _, a := range t.Args {
 			e.evalCalls(st, a, exit)
 		}
@@ -1062,7 +1157,10 @@ func (e *Engine) assume(st *State, x ast.Expr, want bool, exit exitFn) []*State 
 			}
 		}
 	}
-	// atom
+	// atom: a call interpreted in place (the atom itself, or an operand of a comparison)
+	if outs, done := e.assumeInlined(st, x, want, exit); done {
+		return outs
+	}
 	s := st.clone("")
 	e.evalCalls(s, x, exit)
 	// recover() != nil
@@ -1150,4 +1248,62 @@ func isConstName(s string) bool {
 	}
 	c := s[0]
 	return c == '"' || (c >= '0' && c <= '9') || c == '-' || c == '@' || s == "true" || s == "false"
+}
+
+// assumeInlined handles an atom that is, or compares, a call interpreted in place.
+func (e *Engine) assumeInlined(st *State, x ast.Expr, want bool, exit exitFn) ([]*State, bool) {
+	if e.cfg.Inline == nil || exit == nil {
+		return nil, false
+	}
+	if call, fn, callee := e.inlTarget(x); fn != nil {
+		var out []*State
+		for _, o := range e.inline(st.clone(""), call, fn, callee, exit) {
+			o.st.inner = nil
+			if len(o.results) != 1 {
+				out = append(out, e.decide(o.st, e.Fn.CallKey(call), false, want, x)...)
+				continue
+			}
+			for _, t := range e.assume(o.st, o.results[0], want, exit) {
+				t = t.clone("")
+				e.learn(t, e.Fn.CallKey(call), boolVal(want), x)
+				out = append(out, t)
+			}
+		}
+		return out, true
+	}
+	be, ok := x.(*ast.BinaryExpr)
+	if !ok {
+		return nil, false
+	}
+	switch be.Op {
+	case token.EQL, token.NEQ, token.LSS, token.LEQ, token.GTR, token.GEQ:
+	default:
+		return nil, false
+	}
+	for _, side := range []ast.Expr{be.X, be.Y} {
+		call, fn, callee := e.inlTarget(side)
+		if fn == nil {
+			continue
+		}
+		var out []*State
+		for _, o := range e.inline(st.clone(""), call, fn, callee, exit) {
+			o.st.inner = nil
+			states := []*State{o.st}
+			if len(o.results) == 1 {
+				e.skipCall[call] = true
+				states = e.assignOne(o.st, call, ast.Unparen(o.results[0]), exit)
+				delete(e.skipCall, call)
+			}
+			for _, t := range states {
+				e.skipCall[call] = true
+				t = t.clone("")
+				e.evalCalls(t, x, exit)
+				delete(e.skipCall, call)
+				key, neg := e.Fn.Atom(x)
+				out = append(out, e.decide(t, key, neg, want, x)...)
+			}
+		}
+		return out, true
+	}
+	return nil, false
 }
